@@ -16,3 +16,6 @@ impl String {
 }
 impl std::ops::Deref for String { type Target = str; fn deref(&self) -> &str { self.as_str() } }
 impl std::ops::AddAssign<&str> for String { fn add_assign(&mut self, s: &str) { self.push_str(s) } }
+impl From<&str> for String { fn from(s: &str) -> Self { let mut o = String::new(); o.push_str(s); o } }
+impl std::fmt::Write for String { fn write_str(&mut self, s: &str) -> std::fmt::Result { self.push_str(s); Ok(()) } }
+impl std::fmt::Display for String { fn fmt(&self, f: &mut std::fmt::Formatter<'_>) -> std::fmt::Result { f.pad(self.as_str()) } }
